@@ -745,12 +745,13 @@ static std::string describe_diff(const std::vector<const TxRec *> &a, const std:
 struct Loop { int kind; int sid, bridge, node; uint16_t seq; int type; uint32_t offset; int rounds; int tos; int op_index; };
 static std::vector<Loop> g_loops; // reset per world run (single world at a time)
 
+static Mac id_mac(World &w, int64_t id);
 static Bytes mk_query(World &w, int sid, int bridge, int node, uint16_t seq) {
-    Mac me = w.station_mac(sid), es = bridge >= 0 ? w.station_mac(bridge) : me, nm = w.nodes[node]->attr.mac;
+    Mac me = w.station_mac(sid), es = bridge >= 0 ? id_mac(w, bridge) : me, nm = w.nodes[node]->attr.mac;
     return wire::header(nm, es, 0, wire::W_QUERY, nm, me, seq);
 }
 static Bytes mk_qlt(World &w, int sid, int bridge, int node, uint16_t seq, int type, uint32_t offset, int tos) {
-    Mac me = w.station_mac(sid), es = bridge >= 0 ? w.station_mac(bridge) : me, nm = w.nodes[node]->attr.mac;
+    Mac me = w.station_mac(sid), es = bridge >= 0 ? id_mac(w, bridge) : me, nm = w.nodes[node]->attr.mac;
     Bytes f = wire::header(nm, es, (uint8_t)tos, wire::W_QLT, nm, me, seq);
     f.push_back((uint8_t)type); f.push_back(0); f.push_back((uint8_t)(offset >> 8)); f.push_back((uint8_t)offset);
     return f;
@@ -821,6 +822,12 @@ void World::handle_delivery(int node, const Frame &f, int op_index, const Op *op
         free(copy);
     }
     glue_view_get(n.glue, &d.after);
+    if (verbose) {
+        std::string l = "  rx node=" + std::to_string(node) + " t=" + std::to_string(d.t) + " len=" + std::to_string(d.len) + (d.len >= 32 ? " tos=" + std::to_string(n.rxbuf[wire::OFF_TOS]) + " opcode=" + std::to_string(n.rxbuf[wire::OFF_OP]) : std::string(" (short)")) +
+                        " allocs=" + std::to_string(alloc_index) + (d.alloc_fault_fired ? " ALLOC-FAULT" : "") + (d.get_fault_fired ? " GETTER-FAULT" : "") + (n.hidden ? " [twin]" : "");
+        vl(l);
+        for (auto &tx : d.txs) vl("    tx len=" + std::to_string(tx.data.size()) + (tx.data.size() >= 32 ? " opcode=" + std::to_string(tx.data[wire::OFF_OP]) : std::string()) + (tx.refused ? " REFUSED" : "") + (tx.channel ? " periodic" : ""));
+    }
     n.busy_until = handling_base + sleep_accum + (n.cfg.proc_us + 999) / 1000;
     cur = nullptr; curd = nullptr;
     allocfail_k = 0; sendfail_mask = 0; getfail_mask = 0;
@@ -942,7 +949,7 @@ void World::exec_op(int i) {
     switch (op.kind) {
     case OP_DISCOVER: {
         int sid = (int)op.a[0], br = (int)op.a[1];
-        Mac me = station_mac(sid), es = br >= 0 ? station_mac(br) : me;
+        Mac me = station_mac(sid), es = br >= 0 ? id_mac(*this, br) : me;
         Bytes f = wire::header(MAC_BCAST, es, (uint8_t)op.a[2], wire::W_DISCOVER, MAC_BCAST, me, (uint16_t)op.a[4]);
         std::vector<Mac> list;
         if (op.a[5] == 0) { if ((size_t)sid < stations.size()) list = stations[sid].heard; }
@@ -960,7 +967,7 @@ void World::exec_op(int i) {
     case OP_EMIT: {
         if (!nodeok(op.a[2])) break;
         int sid = (int)op.a[0], br = (int)op.a[1];
-        Mac me = station_mac(sid), es = br >= 0 ? station_mac(br) : me, nm = nodes[op.a[2]]->attr.mac;
+        Mac me = station_mac(sid), es = br >= 0 ? id_mac(*this, br) : me, nm = nodes[op.a[2]]->attr.mac;
         Bytes f = wire::header(nm, es, (uint8_t)op.a[5], wire::W_EMIT, nm, me, (uint16_t)op.a[3]);
         size_t nd = op.blob.size() / 14;
         f.resize(34);
@@ -1011,7 +1018,7 @@ void World::exec_op(int i) {
     }
     case OP_RESET: {
         int sid = (int)op.a[0], br = (int)op.a[1];
-        Mac me = station_mac(sid), es = br >= 0 ? station_mac(br) : me;
+        Mac me = station_mac(sid), es = br >= 0 ? id_mac(*this, br) : me;
         Mac rd = (op.a[3] == 1 && nodeok(op.a[4])) ? nodes[op.a[4]]->attr.mac : MAC_BCAST;
         Bytes f = wire::header(MAC_BCAST, es, (uint8_t)op.a[2], wire::W_RESET, rd, me, (uint16_t)op.a[5]);
         put_on_wire(f, sid, -1, &op, i);
